@@ -480,6 +480,8 @@ def builder_fn(src, which):
         body = fn_body(imp, r"pub\s+fn\s+add_fingerprint\s*\(\s*&mut\s+self\s*\)\s*->\s*Result<\(\),\s*StunWriteError>\s*\{")
         locs = []
         stmts_t = [("self.add_fingerprint_unchecked()", "addFingerprintUnchecked b")]
+    elif which in ("add_message_integrity", "integrity_bytes_from_message", "add_message_integrity_unchecked", "add_fingerprint_unchecked"):
+        body = None
     elif which == "add_raw_attribute":
         body = fn_body(imp, r"pub\s+fn\s+add_raw_attribute\s*\(\s*&mut\s+self\s*,\s*attr\s*:\s*RawAttribute<'a>\s*\)\s*->\s*Result<\(\),\s*StunWriteError>\s*\{")
         locs = []
@@ -490,9 +492,46 @@ def builder_fn(src, which):
         locs = []
         stmts_t = [("self.attributes.push(AttrOrRaw::Attr(attr))", "{ b with attrs := b.attrs ++ [a] }"),
                    ("self.attribute_types.push(ty)", "{ b with types := b.types ++ [ty] }")]
+    if which == "add_message_integrity":
+        body = fn_body(imp, r"pub\s+fn\s+add_message_integrity\s*\(\s*&mut\s+self\s*,\s*credentials\s*:\s*&MessageIntegrityCredentials\s*,\s*algorithm\s*:\s*IntegrityAlgorithm\s*,?\s*\)\s*->\s*Result<\(\),\s*StunWriteError>\s*\{")
+        locs = ["algorithm"]
+        stmts_t = [("self.add_message_integrity_unchecked(credentials, algorithm)", "addMessageIntegrityUnchecked b")]
+        extra = [("AttributeType::new(0)", "0"), ("atypes[..i]", "(atypes.take i)"),
+                 ("IntegrityAlgorithm::Sha1", "Algo.sha1"), ("IntegrityAlgorithm::Sha256", "Algo.sha256")]
+        pats_t = [("IntegrityAlgorithm::Sha1", "Algo.sha1"), ("IntegrityAlgorithm::Sha256", "Algo.sha256")]
+    elif which == "integrity_bytes_from_message":
+        body = fn_body(imp, r"fn\s+integrity_bytes_from_message\s*\(\s*&self\s*,\s*extra_len\s*:\s*u16\s*\)\s*->\s*Vec<u8>\s*\{")
+        locs = ["extra_len"]
+        em = Emitter(exprs=[("self.build()", "b.build"), ("BigEndian::read_u16(&bytes[2..4])", "(beNat ((bytes.drop 2).take 2))")],
+                     stmts=[("BigEndian::write_u16(&mut bytes[2..4], $v)", ("bytes", "(setLen bytes $v)"))], state=None, ret="{v}", locals_=locs)
+        if body is None:
+            raise XlateError("integrity_bytes_from_message not found")
+        return em.blk(parse_body(body))
+    elif which == "add_message_integrity_unchecked":
+        body = fn_body(imp, r"fn\s+add_message_integrity_unchecked\s*\(\s*&mut\s+self\s*,\s*credentials\s*:\s*&MessageIntegrityCredentials\s*,\s*algorithm\s*:\s*IntegrityAlgorithm\s*,?\s*\)\s*\{")
+        locs = ["algorithm"]
+        extra = [("credentials.make_hmac_key()", "(hmacKey H c)"), ("self.integrity_bytes_from_message($n)", "(integrityBytesFromMessage b $n)"),
+                 ("MessageIntegrity::compute(&bytes, &key).unwrap()", "(H.hmacSha1 key bytes)"),
+                 ("MessageIntegritySha256::compute(&bytes, &key).unwrap()", "(H.hmacSha256 key bytes)")]
+        pats_t = [("IntegrityAlgorithm::Sha1", "Algo.sha1"), ("IntegrityAlgorithm::Sha256", "Algo.sha256")]
+        stmts_t = [("self.attributes.push(AttrOrRaw::Raw(RawAttribute::from(&MessageIntegrity::new(integrity))).into_owned())",
+                    "{ b with attrs := b.attrs ++ [BAttr.raw (RawAttr.mk tyMI integrity)] }"),
+                   ("self.attributes.push(AttrOrRaw::Raw(RawAttribute::from(&MessageIntegritySha256::new(integrity.as_slice()).unwrap()).into_owned()))",
+                    "{ b with attrs := b.attrs ++ [BAttr.raw (RawAttr.mk tyMI256 integrity)] }"),
+                   ("self.attribute_types.push($t)", "{ b with types := b.types ++ [$t] }")]
+    elif which == "add_fingerprint_unchecked":
+        body = fn_body(imp, r"fn\s+add_fingerprint_unchecked\s*\(\s*&mut\s+self\s*\)\s*\{")
+        locs = []
+        extra = [("self.build()", "b.build"), ("BigEndian::read_u16(&bytes[2..4])", "(beNat ((bytes.drop 2).take 2))"),
+                 ("Fingerprint::compute(&bytes)", "(Crc.crc32Bytes bytes)")]
+        stmts_t = [("BigEndian::write_u16(&mut bytes[2..4], $v)", ("bytes", "(setLen bytes $v)")),
+                   ("self.attributes.push(AttrOrRaw::Attr(&Fingerprint::new(fingerprint)).into_owned())",
+                    "{ b with attrs := b.attrs ++ [(BAttr.typed (AttrVal.fingerprint fingerprint)).intoOwned] }"),
+                   ("self.attribute_types.push($t)", "{ b with types := b.types ++ [$t] }")]
     if body is None:
         raise XlateError(f"MessageBuilder::{which} not found")
-    em = Emitter(exprs=BLD_EXPRS, stmts=stmts_t, state="b", ret="{v}", locals_=locs)
+    em = Emitter(exprs=locals().get("extra", []) + BLD_EXPRS, stmts=stmts_t, pats=locals().get("pats_t", []), state="b",
+                 ret="{s}" if which in ("add_message_integrity_unchecked", "add_fingerprint_unchecked") else "{v}", locals_=locs)
     em.consts = BLD_CONSTS
     out = em.blk(parse_body(body))
     if which in ("add_raw_attribute", "add_attribute") and len(em.preconditions) != 1:
@@ -944,6 +983,10 @@ def items(src):
     yield ("FnBuilder", "hasAttribute", "(b : Builder) (atype : Nat) : Bool", lambda: builder_fn(src, "has_attribute"), None)
     yield ("FnBuilder", "hasAnyAttribute", "(b : Builder) (atypes : List Nat) : Option Nat", lambda: builder_fn(src, "has_any_attribute"), None)
     yield ("FnBuilder", "addFingerprint", "(addFingerprintUnchecked : Builder → Builder) (b : Builder) : Except WErr Builder", lambda: builder_fn(src, "add_fingerprint"), None)
+    yield ("FnBuilder", "addMessageIntegrity", "(addMessageIntegrityUnchecked : Builder → Builder) (b : Builder) (algorithm : Algo) : Except WErr Builder", lambda: builder_fn(src, "add_message_integrity"), None)
+    yield ("FnBuilder", "integrityBytesFromMessage", "(b : Builder) (extra_len : Nat) : Bytes", lambda: builder_fn(src, "integrity_bytes_from_message"), None)
+    yield ("FnBuilder", "addMessageIntegrityUnchecked", "(H : Hashes) (c : Creds) (b : Builder) (algorithm : Algo) : Builder", lambda: builder_fn(src, "add_message_integrity_unchecked"), None)
+    yield ("FnBuilder", "addFingerprintUnchecked", "(b : Builder) : Builder", lambda: builder_fn(src, "add_fingerprint_unchecked"), None)
     yield ("FnBuilder", "addRawAttribute", "(b : Builder) (a : BAttr) : Except WErr Builder", lambda: builder_fn(src, "add_raw_attribute"), None)
     yield ("FnBuilder", "addAttribute", "(b : Builder) (a : BAttr) : Except WErr Builder", lambda: builder_fn(src, "add_attribute"), None)
     vi = {}
